@@ -148,6 +148,29 @@ func init() {
 			f, err := strconv.ParseFloat(string(s), int(bits))
 			return Tuple{p.st.BV(64, math.Float64bits(f)), p.nativeErr(err)}
 		}
+		formatNum := func(signed bool) intrinsic {
+			return func(p *Path, fr *frame, pos token.Pos, args []Value) Value {
+				v, ok1 := concU(args[0])
+				base, ok2 := concU(args[1])
+				if ok1 && ok2 {
+					if signed {
+						return mkStr(strconv.FormatInt(int64(v), int(base)))
+					}
+					return mkStr(strconv.FormatUint(v, int(base)))
+				}
+				if ok2 && base == 10 {
+					ds := p.decimalContract(args[0].(*Term), signed)
+					bs := make([]*Term, len(ds))
+					for i, d := range ds {
+						bs[i] = d.(*Term)
+					}
+					return p.strFromTerms(bs)
+				}
+				return fallThrough{}
+			}
+		}
+		m["strconv.FormatUint"] = formatNum(false)
+		m["strconv.FormatInt"] = formatNum(true)
 		m["strconv.Itoa"] = func(p *Path, fr *frame, pos token.Pos, args []Value) Value {
 			v, ok := concU(args[0])
 			if !ok {
